@@ -250,3 +250,11 @@ Fixpoint ld_get (s : psum (K:=GQ)) (key : pmap) : GQ :=
   match s with [] => (Q2Qc 0, Q2Qc 0) | (k, c) :: r => if pm_eqb k key then gq_add c (ld_get r key) else ld_get r key end.
 Definition psum_eqb (a b : psum (K:=GQ)) : bool :=
   forallb (fun e => gq_eqb (ld_get a (fst e)) (ld_get b (fst e))) (a ++ b).
+
+(* exact inverse and integer powers in Q(i), used to model coefficient ** power (P ** -1, DensePauliString ** k) *)
+Definition gq_inv (a : GQ) : GQ :=
+  let n := (fst a * fst a + snd a * snd a)%Qc in (fst a / n, - snd a / n)%Qc.
+Fixpoint gq_pow (a : GQ) (n : nat) : GQ := match n with O => (Q2Qc 1, Q2Qc 0) | S m => gq_mul a (gq_pow a m) end.
+Definition gq_powZ (a : GQ) (z : Z) : GQ :=
+  match z with Z0 => (Q2Qc 1, Q2Qc 0) | Zpos p => gq_pow a (Pos.to_nat p) | Zneg p => gq_inv (gq_pow a (Pos.to_nat p)) end.
+Definition psumG := list (pmap * GQ).
